@@ -3,6 +3,8 @@
 package verifchecks
 
 import (
+	"strconv"
+	"regexp"
 	"bytes"
 	"context"
 	"fmt"
@@ -408,6 +410,7 @@ func TestC20Child(t *testing.T) {
 }
 
 type c20ChildResult struct {
+	elapsed   time.Duration // time inside RunScript as measured by the child itself (0: not reported)
 	wall, cpu time.Duration
 	finished  bool
 	normal    bool // script ended without error
@@ -442,6 +445,11 @@ func c20RunChild(script string, hardLimit time.Duration) c20ChildResult {
 		res.cpu = cmd.ProcessState.UserTime() + cmd.ProcessState.SystemTime()
 	}
 	res.out = out.String()
+	if m := regexp.MustCompile(`elapsed=([0-9.]+)`).FindStringSubmatch(res.out); m != nil {
+		if f, err := strconv.ParseFloat(m[1], 64); err == nil {
+			res.elapsed = time.Duration(f * float64(time.Second))
+		}
+	}
 	res.normal = strings.Contains(res.out, "err=false")
 	return res
 }
@@ -464,7 +472,10 @@ func runC20Timeout(s *kit.Session, c c20Case) *kit.Failure {
 		if r.finished && r.normal && !strings.HasPrefix(c.Shape, "pattern-") {
 			return &kit.Failure{Cause: "harness", Msg: fmt.Sprintf("non-terminating script %q terminated normally: %s", c.Shape, r.out)}
 		}
-		if r.wall <= wallLimit {
+		// the child's own measurement of the time spent inside RunScript is what the
+		// property is about; the process's wall and CPU time also contain start-up,
+		// garbage collection threads and whatever a busy machine adds
+		if r.wall <= wallLimit || (r.finished && r.elapsed > 0 && r.elapsed <= 2500*time.Millisecond) {
 			s.Observe(c, true, "kind_timeout", "shape_"+c.Shape, "stopped_in_time")
 			return nil
 		}
@@ -485,7 +496,7 @@ func runC20Timeout(s *kit.Session, c c20Case) *kit.Failure {
 			return nil
 		}
 		if attempt == 1 {
-			return &kit.Failure{Cause: "timeout-not-enforced", Msg: fmt.Sprintf("script %q with a 1 s timeout kept running: wall %.1f s, CPU %.1f s (finished=%v), twice in a row in a process of its own", c.Shape, r.wall.Seconds(), r.cpu.Seconds(), r.finished)}
+			return &kit.Failure{Cause: "timeout-not-enforced", Msg: fmt.Sprintf("script %q with a 1 s timeout kept running: %.1f s inside RunScript by the child's own clock, process wall %.1f s, CPU %.1f s (finished=%v), twice in a row in a process of its own", c.Shape, r.elapsed.Seconds(), r.wall.Seconds(), r.cpu.Seconds(), r.finished)}
 		}
 	}
 	return nil
